@@ -466,3 +466,66 @@ Proof.
   destruct (reassembly A loads B data e buf0 HB ltac:(lia) Hl) as [H1 [H2 H3]].
   repeat split; try assumption. apply pieces_with_sizes. assumption.
 Qed.
+
+(* ---- the comparison in the label rule must be >= : with > a pickled entry whose length is an
+        exact multiple of the batch size is sent without a 'finish' piece ---- *)
+
+Definition label_rule_strict (B len pos : Z) : label :=
+  if pos =? 0 then LStart
+  else if pos + B >? len then LFinish
+  else LProcess.
+
+Definition labels_strict (B psize : Z) : list label :=
+  map (label_rule_strict B psize) (py_range0 psize B).
+
+Definition C11_strict_rule_no_finish_stmt : Prop :=
+  forall B k : Z, 1 <= B -> 1 <= k ->
+    count_finish (labels_strict B (k * B)) = 0%nat /\ labels_ok (labels_strict B (k * B)) = false.
+
+Lemma strict_no_finish_in B k pos : 1 <= B -> 1 <= k ->
+  In pos (py_range0 (k * B) B) -> label_rule_strict B (k * B) pos <> LFinish.
+Proof.
+  intros HB Hk Hin. unfold py_range0 in Hin. apply in_map_iff in Hin.
+  destruct Hin as (i & <- & Hi). apply in_seq in Hi.
+  assert (Hc : cdiv (k * B) B = k).
+  { unfold cdiv. replace (k * B + B - 1) with ((B - 1) + k * B) by lia.
+    rewrite Z.div_add by lia. rewrite Z.div_small by lia. lia. }
+  rewrite Hc in Hi. unfold label_rule_strict.
+  destruct (Z.of_nat i * B =? 0); [discriminate|].
+  destruct (Z.of_nat i * B + B >? k * B) eqn:Hgt; [|discriminate].
+  exfalso. apply Z.gtb_lt in Hgt. nia.
+Qed.
+
+Lemma count_finish_none l : (forall x, In x l -> x <> LFinish) -> count_finish l = 0%nat.
+Proof.
+  unfold count_finish. induction l as [|a l IH]; intro H; [reflexivity|].
+  cbn [filter]. destruct a; cbn [label_eqb length].
+  - apply IH. intros x Hx. apply H. now right.
+  - apply IH. intros x Hx. apply H. now right.
+  - exfalso. apply (H LFinish); [now left|reflexivity].
+Qed.
+
+Lemma middle_ok_has_finish l : middle_ok l = true -> In LFinish l.
+Proof.
+  induction l as [|a l IH]; cbn [middle_ok]; [discriminate|].
+  destruct a; try discriminate.
+  - intro H. right. apply IH. exact H.
+  - intros _. now left.
+Qed.
+
+Theorem strict_rule_no_finish : C11_strict_rule_no_finish_stmt.
+Proof.
+  intros B k HB Hk.
+  assert (Hno : forall x, In x (labels_strict B (k * B)) -> x <> LFinish).
+  { intros x Hx. unfold labels_strict in Hx. apply in_map_iff in Hx. destruct Hx as (pos & <- & Hpos).
+    now apply strict_no_finish_in. }
+  split; [now apply count_finish_none|].
+  destruct (labels_ok (labels_strict B (k * B))) eqn:Hok; [|reflexivity].
+  exfalso. unfold labels_ok in Hok. destruct (labels_strict B (k * B)) as [|a r] eqn:Hl; [discriminate|].
+  destruct a; try discriminate. apply middle_ok_has_finish in Hok.
+  apply (Hno LFinish); [now right|reflexivity].
+Qed.
+
+Example strict_rule_example : labels_strict 64 128 = [LStart; LProcess] /\
+  map fst (piece_sizes 64 128) = [LStart; LFinish].
+Proof. vm_compute. split; reflexivity. Qed.
